@@ -20,12 +20,14 @@ Inductive jcond :=
 | JCLabel (idx : nat) (value : string)
 | JCAttr (name : string) (value : string) (default : option string).
 
-Inductive jschema := JSch (attrs : list string) (any : bool) (blocks : list (string * jblock))
+(* [dyn]: the body enables the dynamic-blocks extension *)
+Inductive jschema := JSch (attrs : list string) (any : bool) (blocks : list (string * jblock)) (dyn : bool)
 with jblock := JBlk (nlabels : nat) (body : jschema) (dep : list (jcond * jschema)).
 
-Definition js_attrs s := match s with JSch a _ _ => a end.
-Definition js_any s := match s with JSch _ a _ => a end.
-Definition js_blocks s := match s with JSch _ _ b => b end.
+Definition js_attrs s := match s with JSch a _ _ _ => a end.
+Definition js_any s := match s with JSch _ a _ _ => a end.
+Definition js_blocks s := match s with JSch _ _ b _ => b end.
+Definition js_dyn s := match s with JSch _ _ _ d => d end.
 Definition jb_nlabels b := match b with JBlk n _ _ => n end.
 Definition jb_body b := match b with JBlk _ b _ => b end.
 Definition jb_dep b := match b with JBlk _ _ d => d end.
@@ -57,7 +59,19 @@ Fixpoint unpack (n : nat) (v : jval) (used : list string) : list (list string * 
   end.
 
 Definition jmerge (a b : jschema) : jschema :=
-  JSch (List.app (js_attrs a) (js_attrs b)) (js_any a || js_any b) (List.app (js_blocks b) (js_blocks a)).
+  JSch (List.app (js_attrs a) (js_attrs b)) (js_any a || js_any b) (List.app (js_blocks b) (js_blocks a)) (js_dyn a).
+
+(* the dynamic-blocks extension (schemahelper.MergeBlockBodySchemas, buildDynamicBlockSchema): block types
+   that may be generated get the extension themselves, and a block type "dynamic" - one label naming the
+   generated type, which selects a body with exactly one block type "content" holding that type's body *)
+Definition set_dyn (s : jschema) : jschema := JSch (js_attrs s) (js_any s) (js_blocks s) true.
+
+Definition propagate_dyn (bs : list (string * jblock)) : list (string * jblock) :=
+  map (fun tb => (fst tb, JBlk (jb_nlabels (snd tb)) (set_dyn (jb_body (snd tb))) (jb_dep (snd tb)))) bs.
+
+Definition dynamic_block (types : list (string * jblock)) : jblock :=
+  JBlk 1 (JSch ["for_each"; "iterator"; "labels"] false [] false)
+       (map (fun tb => (JCLabel 0 (fst tb), JSch [] false [("content", JBlk 0 (jb_body (snd tb)) [])] false)) types).
 
 (* the value of a key attribute in a JSON body: a plain string as written (strings are not evaluated
    as templates for this purpose), the default when the attribute is not written *)
@@ -80,9 +94,27 @@ Definition cond_holds (labels : list string) (bodyv : jval) (c : jcond) : bool :
 (* the body schema of one block instance: its body merged with the dependent body selected by a
    label or by a key attribute of the instance's body *)
 Definition inner_schema (b : jblock) (labels : list string) (bodyv : jval) : jschema :=
+  let st := jb_body b in
   match find (fun d => cond_holds labels bodyv (fst d)) (jb_dep b) with
-  | Some d => jmerge (jb_body b) (snd d)
-  | None => jb_body b
+  | Some d =>
+      if js_dyn st then
+        (* the dependent body's block types may be generated *)
+        let depb := propagate_dyn (js_blocks (snd d)) in
+        let m := JSch (List.app (js_attrs st) (js_attrs (snd d))) (js_any st || js_any (snd d)) (List.app depb (js_blocks st)) true in
+        match depb with
+        | [] => m
+        | _ => JSch (js_attrs m) (js_any m) (("dynamic", dynamic_block depb) :: js_blocks m) true
+        end
+      else jmerge st (snd d)
+  | None =>
+      (* no dependent body found (or none declared): with the extension, every block type may be generated *)
+      if js_dyn st then
+        match js_blocks st with
+        | [] => st
+        | _ => let pb := propagate_dyn (js_blocks st) in
+               JSch (js_attrs st) (js_any st) (("dynamic", dynamic_block pb) :: pb) true
+        end
+      else st
   end.
 
 (* the first member of each name wins ("Duplicate argument") *)
@@ -254,11 +286,11 @@ Definition attrs_of_sexp (x : sexp) : option (list (string * jval)) :=
   do l <- as_list x;
   map_opt (fun e => match e with SList [SStr k; v] => do j <- jval_of_sexp v; Some (k, j) | _ => None end) l.
 
-(* (sch (attr-names) any ((type nlabels body ((idx value dep)...))...)) *)
+(* (sch (attr-names) any ((type nlabels body ((idx value dep)...))...) dyn) *)
 Fixpoint jschema_of_sexp (x : sexp) : option jschema :=
   match x with
-  | SList [SAtom "sch"; SList names; any; SList blocks] =>
-      match map_opt as_str names, as_bool any,
+  | SList [SAtom "sch"; SList names; any; SList blocks; dyn] =>
+      match map_opt as_str names, as_bool any, as_bool dyn,
             (fix go (l : list sexp) : option (list (string * jblock)) :=
                match l with
                | [] => Some []
@@ -285,8 +317,8 @@ Fixpoint jschema_of_sexp (x : sexp) : option jschema :=
                    end
                | _ => None
                end) blocks with
-      | Some a, Some y, Some b => Some (JSch a y b)
-      | _, _, _ => None
+      | Some a, Some y, Some dy, Some b => Some (JSch a y b dy)
+      | _, _, _, _ => None
       end
   | _ => None
   end.
